@@ -484,7 +484,11 @@ func c17BFS(t *core.T, cf c17Cfg, nflows, maxDepth int, c *core.Ctx) (int, int) 
 	reported := map[string]bool{}
 	for depth := 0; depth < maxDepth && len(frontier) > 0; depth++ {
 		var next []*c17State
-		for _, s := range frontier {
+		for si, s := range frontier {
+			if si%64 == 0 && c.TimeUp() {
+				t.Outcome("bfs-capped-by-time")
+				return len(seen), transitions
+			}
 			for _, a := range c17Actions(w, s) {
 				ns := s.clone()
 				ns.depth++
